@@ -52,6 +52,13 @@ TABLE: list[ClassDef] = [
     ClassDef("Base", "ASTNode"),
     ClassDef("LeafA", "Base", [FieldDef("v", "int", "int", "0")]),
     ClassDef("LeafB", "Base", [FieldDef("v", "int", "int", "0")]),
+    # child fields whose names are also names inside the library's generated and internal code
+    ClassDef("Odd", "Base", [FieldDef("self", "Base | None", "opt", "None", classes=ANY),
+                             FieldDef("node", "Base | None", "opt", "None", classes=ANY),
+                             FieldDef("arg", "Base | None", "opt", "None", classes=ANY),
+                             FieldDef("args", "tuple[Base, ...]", "tuple", "()", classes=ANY),
+                             FieldDef("o", "Base | None", "opt", "None", classes=ANY),
+                             FieldDef("i", "Base | None", "opt", "None", classes=ANY)]),
     # a child field that is no constructor argument: every instance gets a leaf of its own from a factory
     ClassDef("NoInit", "Base", [FieldDef("kid", "Base | None", "opt", "None", classes=ANY),
                                 FieldDef("auto", "LeafA", "one", None, init=False,
